@@ -19,4 +19,9 @@ META = {
         "design_ref": "DESIGN.md section 6 C04, Appendix F.2",
         "note": "Trusted: the invariant I1-I4 is strong enough (checked executable on every pre-state), engine + z3, model data plane zzDP for the removal ordering. Bound: table length <= 3 (quick) / 4 (thorough), two control-plane nodes.",
     },
+    "C12": {
+        "text": "One inductive step on the PDR<->URR reference invariant plus bounded histories, both through the real Session Modification/Deletion handlers: for every reference state in the bound the request is executed with symbolic rule ids and URR lists, the invariant (refcount == number of PDRs whose current list names the URR) is re-established, and the usage reports decoded from the response bytes by a reference decoder are compared with the ghost expectation (exactly one TERMR report per URR that ends or loses its last reference, IMMER for queries, none otherwise).",
+        "design_ref": "DESIGN.md section 6 C12, Appendix F.3",
+        "note": "Trusted: invariant strength, model data plane contract (one report per successful remove/query), engine + z3. Bound: <= 2 PDRs x <= 2 (quick) / 3 (thorough) URR ids, one rule IE per request; histories of depth 3 (quick) / 4 (thorough) from an empty session.",
+    },
 }
